@@ -277,6 +277,7 @@ def _after(stmt):
 def run(ctx):
     ctx.rule('C19-R1', 'each expect_* macro expands to expect_generic(<(a) OP (b)>, msg, __FILE__, __LINE__) with its own operator and the use site\'s file/line', 9)
     ctx.rule('C19-R2', 'expect_generic returns iff pred, else throws expectation_failed(msg, file, line); constructor stores each argument in the like-named member', 6)
+    ctx.rule('C19-R5', 'expect_raises_fn by evaluation (E-TABLE): each instantiation folded on callback models (normal return; throws of 10 dynamic types) passes iff the thrown type is ExcT or derives from it, fails with expectation_failed otherwise, and invokes the callback once', 7)
     ctx.rule('C19-R3', 'expect_raises_fn: no failure raised inside the try; ExcT handler first and succeeding; other handlers and the no-exception path always fail', 50)
     w = ctx.unit(witness_unit('c19.cc'))
     u = ctx.unit(repo_unit('UnitTest.cc'))
@@ -382,12 +383,16 @@ def run(ctx):
             ce = [x for x in walk(t) if x.get('kind') in ('CXXConstructExpr', 'CXXTemporaryObjectExpr') and (dtype(x) or '').endswith('expectation_failed') and len(kids(x)) == 3]
             if ce:
                 names = [(ref_decl(a) or {}).get('name') for a in kids(ce[0])]
+                ids_ = [(ref_decl(a) or {}).get('id') for a in kids(ce[0])]
                 if id(t_call) in fwd_map:
                     # through the helper: its parameters, in order, bound to the caller's (msg, file, line)
-                    pn_ = [p_.get('name') for p_ in params_of(hd_)]
+                    pi_ = [p_.get('id') for p_ in params_of(hd_)]
+                    ai_ = [(ref_decl(a) or {}).get('id') for a in call_args(t_call)]
+                    ids_ = [ai_[pi_.index(n_)] if n_ in pi_ and pi_.index(n_) < len(ai_) else None for n_ in ids_]
                     an_ = [(ref_decl(a) or {}).get('name') for a in call_args(t_call)]
-                    names = [an_[pn_.index(n_)] if n_ in pn_ and pn_.index(n_) < len(an_) else None for n_ in names]
-                ctx.check(names == ['msg', 'file', 'line'], R, 'throw-args|%d' % i, t, 'expectation_failed(msg, file, line)', 'exception constructed from %s' % names)
+                    names = [an_[pi_.index(n_)] if n_ in pi_ and pi_.index(n_) < len(an_) else None for n_ in [(ref_decl(a) or {}).get('id') for a in kids(ce[0])]]
+                # by position: the 2nd, 3rd and 4th parameter of expect_generic, whatever they are called
+                ctx.check(ids_ == [ps[1]['id'], ps[2]['id'], ps[3]['id']], R, 'throw-args|%d' % i, t, 'expectation_failed(msg, file, line)', 'exception constructed from %s, expected the parameters %s in this order' % (names, [p_.get('name') for p_ in ps[1:4]]))
             else:
                 ctx.bad(R, 'throw-args|%d' % i, t, 'cannot find the expectation_failed(msg, file, line) construction')
         for i, r in enumerate(rets):
@@ -408,9 +413,55 @@ def run(ctx):
         for m in ('msg', 'file', 'line'):
             ctx.check(seen.get(m) == m, R, 'ctor-member|' + m, ctor, 'member %s initialised from parameter %s' % (m, m), 'member %s initialised from %s' % (m, seen.get(m)))
 
-    # ---- R3 expect_raises_fn
+    # ---- R5 expect_raises_fn by evaluation (E-TABLE): the helper folded on callback models that return
+    # normally or throw an exception of a given dynamic type
     insts = w.func('phosg::expect_raises_fn')
     ctx.require(len(insts) >= 6, 'fewer expect_raises_fn instantiations than the witness requests')
+    R5_DECIDED = set()
+    spec_ = [f for f in u.func('phosg::expect_raises_fn') if [c['type']['qualType'] for c in kids(f) if c.get('kind') == 'TemplateArgument'] == ['std::exception']]
+    with ctx.section('C19-R5', 'C19'):
+        from peval import PEval, Lit, Thrower, Thrown, Undecided, Fault
+        from exc import Exc
+        PE = PEval([w, u])
+        EX = Exc([w, u])
+        models = (None, 'std::exception', 'std::runtime_error', 'std::logic_error', 'std::out_of_range', 'std::invalid_argument', 'std::range_error', 'std::bad_alloc', 'phosg::expectation_failed', 'int', 'const char *')
+        for f in [f_ for f_ in insts if body_of(f_) is not None] + spec_:
+            exct = [c['type']['qualType'] for c in kids(f) if c.get('kind') == 'TemplateArgument'][0]
+            label = 'expect_raises_fn<%s>' % exct
+            bad_, und_ = None, None
+            for et in models:
+                th = Thrower(et)
+                try:
+                    PE.call_with(f, [Lit(b'caller.cc\0'), 4242, th])
+                    out = 'returns normally'
+                except Thrown as e_:
+                    if str(e_).startswith('the callback model'):
+                        out = 'lets the callback\'s %s escape' % et
+                    elif (e_.etype or '').endswith('expectation_failed'):
+                        out = 'fails'
+                    else:
+                        out = 'throws %s' % e_.etype
+                except Fault as e_:
+                    out = 'faults (%s)' % e_
+                except Undecided as e_:
+                    und_ = str(e_)
+                    break
+                is_cls = lambda t_: t_ is not None and (t_.startswith('std::') or t_.startswith('phosg::'))
+                expected = et is not None and (et == exct or (is_cls(et) and is_cls(exct) and EX.derives(et, exct)))
+                want = 'returns normally' if expected else 'fails'
+                if out != want:
+                    bad_ = bad_ or 'when the callback %s, %s %s; it must %s' % ('returns normally' if et is None else 'throws %s' % et, label, out, 'return normally (the expected exception was raised)' if expected else 'raise expectation_failed')
+                elif th.calls != 1:
+                    bad_ = bad_ or 'the callback is invoked %d times' % th.calls
+            if und_:
+                ctx.undecided('C19-R5', label + '|outcomes', f, 'the helper could not be folded (%s)' % und_)
+            elif bad_:
+                ctx.bad('C19-R5', label + '|outcomes', f, bad_)
+            else:
+                ctx.ok('C19-R5', label + '|outcomes', f, 'passes iff the callback throws %s or a type derived from it: %d callback models (normal return, 8 std types, expectation_failed itself, int, const char*), callback invoked once' % (exct, len(models)))
+                R5_DECIDED.add(label)
+    ctx.defer({'C19-R3'}, 'C19-R5', only=lambda k_: k_.split('|')[0] in R5_DECIDED and '|site-args|' not in k_)
+    # ---- R3 expect_raises_fn
     for f in insts:
         targs = [c['type']['qualType'] for c in kids(f) if c.get('kind') == 'TemplateArgument']
         if body_of(f) is None:
